@@ -60,6 +60,8 @@ def stacks_of(spec):
     if spec["gsc"]["kind"] == "SingularProblemPrecisionReached":
         prec = (0, len(layers))
         layers.append(f"P 0 0 {fr(spec['gsc']['precision'])} none 0")
+    elif spec.get("precision_wrapper"):
+        layers.append(f"P 0 0 {fr(spec['precision_wrapper'])} none 0")
     if spec.get("cutoff"):
         layers.append(f"X 0 {spec['cutoff']}")
     one = f"{len(layers)} " + " ".join(layers) if layers else "0"
